@@ -55,6 +55,9 @@ func spaces(prop string, thorough bool) []space {
 			{name: "q-allpoints-P2-D0", uploads: []bool{false}, adds: [][]string{{"A", "A"}, {"A", "B", "A"}}, batch: []int{1, 2}, workers: []int{1, 2}, retries: []int{1}, delays: []int{0}, watch: []int{1}, dry: []bool{false}, noEnv: "duration,expiry", p: 2, d: 0, sum: -1, all: true},
 			{name: "q-P1-D1", uploads: []bool{false, true}, adds: append(append([][]string{}, two...), three[0], three[2]), batch: []int{1, 2}, workers: []int{1, 2}, retries: []int{1}, delays: []int{0}, watch: []int{1}, dry: []bool{false}, noEnv: "duration,expiry", p: 1, d: 1, sum: -1},
 			{name: "q-P2-D0", uploads: []bool{false}, adds: append(append([][]string{}, two...), three[0]), batch: []int{1, 2}, workers: []int{1, 2}, retries: []int{1}, delays: []int{0}, watch: []int{1, 2}, dry: []bool{false, true}, noEnv: "duration,expiry", p: 2, d: 0, sum: -1},
+			// objects with DIFFERENT retry counts in one batch: three objects with batch size 2, so that the third one meets a re-queued
+			// one in the second batch; two faulty answers (e.g. a transfer fails retriably, then the batch call for the mixed batch fails)
+			{name: "q-mixedcounts-P0-D2", uploads: []bool{false, true}, adds: [][]string{{"A", "B", "C"}}, batch: []int{2}, workers: []int{1, 2}, retries: []int{1, 2}, delays: []int{0, -1}, watch: []int{1}, dry: []bool{false}, noEnv: "duration,expiry,localfile,begin,adaptername", p: 0, d: 2, sum: -1},
 		}
 		if thorough {
 			s = append(s,
